@@ -43,6 +43,9 @@ BAD = {
     'idl-samples-mismatch': lambda pe, x: pe.Obs([x], ['e|r1'], idl=[[1, 2, 3, 4, 5, 6]]),
     'four-samples': lambda pe, x: pe.Obs([x[:4]], ['e|r1']),
     'several-ensembles': lambda pe, x: pe.Obs([x, x], ['e|r1', 'f|r1']),
+    'several-ensembles-prefix': lambda pe, x: pe.Obs([x, x], ['A|r1', 'AB|r1']),
+    'several-ensembles-prefix3': lambda pe, x: pe.Obs([x, x, x], ['A|r1', 'A2|r1', 'A|r2']),
+    'several-ensembles-no-separator': lambda pe, x: pe.Obs([x, x], ['ens', 'ens2']),
     'unsorted-idl': lambda pe, x: pe.Obs([x], ['e|r1'], idl=[[1, 3, 2, 4, 5]]),
     'duplicate-idl': lambda pe, x: pe.Obs([x], ['e|r1'], idl=[[1, 2, 2, 4, 5]]),
     'idl-type': lambda pe, x: pe.Obs([x], ['e|r1'], idl=['12345']),
@@ -79,6 +82,12 @@ def h_bad_ctor(cx):
     c = pe.cov_Obs([1.0, 2.0], [[1.0, 0.5], [0.5, 1.0]], 'cv')
     for ci in c:
         lib.check_wellformed(cx, ci, 'cov_Obs')
+
+
+def h_names(cx, func, timeout=90):
+    """which chain / covariance names the real constructors accept, for all short strings (CrossHair, see symx/xhair.py and props/xh_c04.py)"""
+    from symx import xhair
+    xhair.decide(cx, 'props.xh_c04', func, 'constructor accepts exactly the well-formed names [%s]' % func, timeout=timeout)
 
 
 def closed(cx, r, label):
@@ -174,7 +183,7 @@ def h_producers(cx):
         lib.check_wellformed(cx, o, 'derived-array')
 
 
-HARNESSES = dict(ctor_idl=h_ctor_idl, bad_ctor=h_bad_ctor, closure=h_closure, producers=h_producers)
+HARNESSES = dict(ctor_idl=h_ctor_idl, bad_ctor=h_bad_ctor, closure=h_closure, producers=h_producers, names=h_names)
 
 
 def jobs(tier, seed):
@@ -189,6 +198,9 @@ def jobs(tier, seed):
     add('closure', layout_a={'e|r1': [1, 2, 3, 4, 5]}, layout_b={'e|r1': [1, 2, 3, 4, 5]})
     add('closure', layout_a={'e|r1': [1, 2, 3, 4, 5], 'e|r2': [1, 2, 4, 5, 6]}, layout_b={'f|r1': [2, 4, 6, 8, 10]})
     add('producers')
+    add('names', func='check_names')
+    add('names', func='check_covname')
+    add('names', func='check_names3', timeout=150)
     return J
 
 
